@@ -6,6 +6,8 @@ from symx.absgroup import AbsGroup, norm
 from symx.proto import (Entropy, setup_hash_axioms, outcome, okind, orders, klass, PEER, SIDE_BYTE, msg_log)
 
 PID = "C02"
+TECHNIQUE = "symbolic execution with independent inputs on both ends and arbitrary delivered byte strings; z3 (LIA+UF, no-collision and injectivity axioms) decides 'equal keys => equal views'; polynomial identity for log K_A - log K_B"
+LEVEL_NOTE = "no collisions among the <= 8 SHA-256 applications of a query; Euclid's lemma for prime q; strict decoding of the real groups (jobs shared with C05); known findings F6, F6b are scalar coincidences of probability 1/q"
 EXPLANATION = (
     "The real SPAKE2_A x SPAKE2_B and SPAKE2_Symmetric x SPAKE2_Symmetric run with INDEPENDENT symbolic (password, idA, "
     "idB / idS) on the two ends, parameter sets that may differ in M, N, S (different subgroup elements) or in the "
@@ -38,7 +40,7 @@ def jobs(tier):
             for variant in variants:
                 lens = [("W", "W")] if variant != "same" else [("W", "W"), ("W+1", "W"), ("W", "W+2"), ("0", "W"), ("1", "1"), ("W-1", "W")]
                 for (la, lb) in lens:
-                    sers = [(0, 0), (1, 1)] if (variant == "same" and (la, lb) == ("W", "W")) else [(0, 0)]
+                    sers = [(0, 0), (1, 0), (0, 1)] if (variant == "same" and (la, lb) == ("W", "W")) else [(0, 0)]
                     if tier != "quick" and variant == "same" and (la, lb) == ("W", "W"):
                         sers = [(0, 0), (1, 0), (0, 1), (1, 1)]
                     for ser in sers:
@@ -101,6 +103,8 @@ def job_tamper(J, qn, fl, variant, la, lb, ser=(0, 0)):
             b = type(b).from_serialized(b.serialize(), params=p2)
         dA = SymBytes.fresh("toA_side", 1) + SymBytes.fresh_chunk("toA", _len(la, W) - 1) if _len(la, W) else SymBytes([])
         dB = SymBytes.fresh("toB_side", 1) + SymBytes.fresh_chunk("toB", _len(lb, W) - 1) if _len(lb, W) else SymBytes([])
+        if ser != (0, 0):
+            dA, dB = mB, mA       # restore variants: honest delivery, independent passwords/identities on the two ends
         w = dict(a=a, b=b, mA=mA, mB=mB, dA=dA, dB=dB, pw=pw, pw2=pw2, idA=idA, idA2=idA2, idB=idB, idB2=idB2, p1=p1, p2=p2, g=g)
         ctx.data["w"] = w
         w["oA"] = outcome(a.finish, dA)
